@@ -152,6 +152,7 @@ class C12(object):
             return {"entry": "peaksearch-pipeline", "tier2": True, "nfr": min(nfr, 8), "ns": min(ns, 12), "nf": min(nf, 12),
                     "wseed": rnd.getrandbits(48), "threshold": rnd.choice([0.0, 5.0]), "omega0": 0.0, "ostep": rnd.choice([1.0, 0.25, -0.5]),
                     "nthresh": rnd.choice([1, 2, 3]), "dark": rnd.random() < 0.4, "omega_in_header": rnd.random() < 0.6,
+                    "irregular_omega": rnd.random() < 0.5, "dup_threshold": rnd.random() < 0.25,
                     "write2d": True, "cfg": dict(cfg, team=1),
                     "strategy": rnd.choice(["random", "random", "pct", "rr", "rtc"]), "p_inv": rnd.choice([1, 2, 4, 16, 64]),
                     "quantum": rnd.choice([1, 3, 10]), "pct_d": rnd.choice([1, 2, 3]), "sseed": rnd.getrandbits(48),
@@ -187,6 +188,11 @@ class C12(object):
             for q in range(min(len(bk), rnd.randint(1, 3))):
                 vol[tuple(bk[rnd.randrange(len(bk))])] = np.nan
         omegas = (desc["omega0"] + desc["ostep"] * np.arange(nfr)).astype(np.float32)
+        if desc.get("tier2") and desc.get("omega_in_header") and desc.get("irregular_omega") and nfr > 1:
+            # the angles come from the image headers and are not equally spaced; one of them is exactly zero
+            steps = np.array([rnd.choice([0.25, 0.5, 0.75, 1.0, 1.25]) for _ in range(nfr - 1)])
+            om = np.concatenate([[0.0], np.cumsum(steps)])
+            omegas = ((om - om[rnd.randrange(nfr)]) * (1 if desc["ostep"] > 0 else -1)).astype(np.float32)
         return kind, M, vol, omegas
 
     def execute(self, desc, ctx):
@@ -331,7 +337,8 @@ class C12(object):
             o.format = "py"
             o.stem = "verif_c12_series"
             o.outfile = os.path.join(d, tag + ".spt")
-            o.thresholds = thresholds
+            # the same threshold may be given twice on the command line: it is searched once
+            o.thresholds = thresholds + ([thresholds[0], float(thresholds[-1])] if desc.get("dup_threshold") else [])
             o.oneThread = one
             o.perfect = "Y"
             o.OMEGA, o.OMEGASTEP, o.OMEGAOVERRIDE = float(omegas[0]), float(desc["ostep"]), False
